@@ -341,7 +341,9 @@ class Gen:
         if kind == "hashtype0":
             hash_type = 0
         if kind == "hashtype-undef":
-            hash_type = r.choice([4, 0x50, 0x84, 0x7F, 0xFF, 0x80])
+            # any byte Core's IsDefinedHashtypeSignature refuses (the byte less 0x80 outside 1..3): the whole range, since
+            # which bits a rule masks is exactly what such a rule gets wrong (0x21: SIGHASH_ALL's selector, undefined byte)
+            hash_type = r.choice([4, 0x50, 0x84, 0x7F, 0xFF, 0x80] + [h for h in range(256) if not 1 <= (h & ~0x80) <= 3])
         if kind == "empty":
             return b"", hash_type
         if kind == "garbage":
@@ -609,7 +611,7 @@ class Gen:
             return bytes(r.randrange(256) for _ in range(r.choice([1, 63, 64, 65, 66])))
         ht = r.choice([0, 0, 1, 2, 3, 0x81, 0x82, 0x83])
         if kind == "hashtype-undef":
-            ht = r.choice([4, 0x80, 0x84, 0x10, 0xFF])
+            ht = r.choice([4, 0x80, 0x84, 0x10, 0xFF] + [h for h in range(4, 256) if not 0x81 <= h <= 0x83])
         ed = cm.ExecData(annex=annex, tapleaf_hash=leaf_hash or b"", codesep_pos=codesep)
         sigver = cm.TAPSCRIPT if tapscript else cm.TAPROOT
         msg = cm.taproot_sighash(tx, n_in, spent, ht if kind != "hashtype-undef" else 0, sigver, ed)
